@@ -389,54 +389,40 @@ def neg_skolem(goal):
 
 
 def solve(hyps, goal, timeout_ms=None, want_model=True):
-    """Is hyps |= goal ?  returns (verdict, model_text, secs, backend)."""
+    """Is hyps |= goal ?  returns (verdict, model_text, secs, backend).
+    order: z3 default (proof or counter-model) -> counter-model search over 2..3 names -> z3 with e-matching only
+    -> counter-model search over 4 names.  `unknown` is never turned into a verdict."""
     t0 = time.time()
-    s = z3.Solver()
-    s.set("timeout", timeout_ms or Z3_TIMEOUT_MS)
+    ver = "z3-" + z3.get_version_string()
     dax = distinct_axioms(list(hyps) + [goal])
-    for h in hyps:
-        s.add(h)
-    for h in dax:
-        s.add(h)
-    s.add(z3.Not(goal))
-    r = s.check()
-    secs = time.time() - t0
-    if r == z3.unsat:
-        return "discharged", None, secs, "z3-" + z3.get_version_string()
-    if r == z3.sat:
-        m = None
-        if want_model:
-            try:
-                m = str(s.model())[:6000]
-            except Exception:
-                m = "<model unavailable>"
-        return "refuted", m, secs, "z3-" + z3.get_version_string()
-    # second attempt with a different configuration (mbqi off / on) before giving up
-    s2 = z3.Solver()
-    s2.set("timeout", timeout_ms or Z3_TIMEOUT_MS)
-    s2.set("smt.mbqi", False)
-    s2.set("smt.random_seed", 7)
-    for h in hyps:
-        s2.add(h)
-    for h in dax:
-        s2.add(h)
-    s2.add(z3.Not(goal))
-    r2 = s2.check()
-    secs = time.time() - t0
-    if r2 == z3.unsat:
-        return "discharged", None, secs, "z3-" + z3.get_version_string() + "(ematching)"
-    # counter-model search in a bounded universe of names: a model of hyps /\ not goal with k atoms
-    # is a genuine counter-model of the obligation (refuted), and it is small enough to replay
-    for k in (2, 3, 4):
+    budget = timeout_ms or Z3_TIMEOUT_MS
+
+    def attempt(mbqi, tmo):
+        s = z3.Solver()
+        s.set("timeout", tmo)
+        if not mbqi:
+            s.set("smt.mbqi", False)
+            s.set("smt.random_seed", 7)
+        for h in hyps:
+            s.add(h)
+        for h in dax:
+            s.add(h)
+        s.add(z3.Not(goal))
+        return s, s.check()
+
+    def bounded(k, tmo):
         s3 = z3.Solver()
-        s3.set("timeout", 8000)
+        s3.set("timeout", tmo)
         cs = [z3.Const(f"u{i}", Atom) for i in range(k)]
         cache, aterms = {}, {}
         try:
             for h in list(hyps) + dax + [neg_skolem(goal)]:
                 s3.add(expand_atoms(h, cs, cache, aterms))
         except Exception:
-            break
+            if os.environ.get("PYVC_DEBUG"):
+                import traceback
+                traceback.print_exc()
+            return None
         # every quantifier over names is now ground; a model restricted to {u_i} is a model of the
         # original formulas provided every name-valued ground term denotes one of the u_i
         for c in list(aterms.values()):
@@ -447,8 +433,34 @@ def solve(hyps, goal, timeout_ms=None, want_model=True):
                 m = str(s3.model())[:6000]
             except Exception:
                 m = "<model unavailable>"
-            return "refuted", f"(universe bounded to {k} names)\n" + m, time.time() - t0, "z3-" + z3.get_version_string() + "(bounded-universe)"
-    return "unknown", s.reason_unknown(), time.time() - t0, "z3-" + z3.get_version_string()
+            return f"(universe bounded to {k} names)\n" + m
+        return None
+
+    s, r = attempt(True, budget // 2)
+    if r == z3.unsat:
+        return "discharged", None, time.time() - t0, ver
+    if r == z3.sat:
+        m = None
+        if want_model:
+            try:
+                m = str(s.model())[:6000]
+            except Exception:
+                m = "<model unavailable>"
+        return "refuted", m, time.time() - t0, ver
+    reason = s.reason_unknown()
+    if want_model:
+        for k in (2, 3):
+            m = bounded(k, 6000)
+            if m is not None:
+                return "refuted", m, time.time() - t0, ver + "(bounded-universe)"
+    s2, r2 = attempt(False, budget)
+    if r2 == z3.unsat:
+        return "discharged", None, time.time() - t0, ver + "(ematching)"
+    if want_model:
+        m = bounded(4, 10000)
+        if m is not None:
+            return "refuted", m, time.time() - t0, ver + "(bounded-universe)"
+    return "unknown", reason, time.time() - t0, ver
 
 
 def expand_atoms(f, consts, cache=None, atom_terms=None):
